@@ -58,7 +58,13 @@ def run(tier, rep):
         tr.add(data, kind="bytesio", validate=1, parsed=True, quit=1, rnd=rnd, want=[f1, f2], nitems=1302, nframes=2)
     many = [frame_of_(rnd.choice(pool[:20])) for _ in range(1500 if quick else 6000)]
     tr.add(b"".join(many), kind="buffered", validate=1, parsed=False, quit=1, rnd=rnd, want=many, nitems=len(many) + 1, nframes=len(many))
-    verdicts = tr.judge()
+    # frames whose CRC bytes are zero / leading zeros / all ones / sync and foreign header bytes / CR LF
+    for kind_ in ("bytesio", "scripted", "socket"):
+        data, frames = stream_corpus.crc_target_stream(bundle, rnd, pool)
+        seg = sockdouble.critical_segmentation(rnd, frames) if kind_ == "socket" else None
+        tr.add(data, kind=kind_, validate=1, parsed=kind_ != "scripted", quit=rnd.choice([0, 1, 2]), seg=seg, rnd=rnd, want=frames,
+               nitems=len(frames) + 1, nframes=len(frames))
+    verdicts = tr.judge(always_out=True)
     for tid, v in verdicts.items():
         m = tr.meta[tid]
         rep.case(digest([m["data"].hex(), m["kind"], m["quit"], m["parsed"], m["validate"]]), nontrivial=m["nframes"] >= 2 and m["nitems"] > m["nframes"])
